@@ -3,7 +3,7 @@
 # copies /repo/molgri to a scratch dir, applies one textual mutation, runs the quick check against it.
 set -e
 P=$1; F=$2; PAT=$3; REP=$4
-D=$(mktemp -d /tmp/mut.XXXXXX); cp -r /repo/molgri $D/
+D=$(mktemp -d /tmp/mut.XXXXXX); git -C /repo archive HEAD molgri | tar -x -C $D
 python3 - "$D/$F" "$PAT" "$REP" <<'PY'
 import re,sys
 fn,pat,rep=sys.argv[1:4]
